@@ -156,7 +156,12 @@ func scRelogin(n int, busy bool) func(x *vs.Exec) {
 				// when several re-logins raced, the registration may have been sent on a session that was itself replaced
 				vs.Fail("registration of the client's own proxy name right after the re-login was acknowledged: %s", res[i])
 			}
-			serves(w, 20001, p.Name+"/n", fmt.Sprint(50+i))
+			// work connections are keyed by run id: one opened by an earlier incarnation of the same client
+			// (same run id) may legitimately carry the traffic
+			who, e := w.UserEcho("10.7.0.1:"+fmt.Sprint(50+i), 20001, "x")
+			if e != "" || !strings.HasSuffix(who, "/n") || !strings.HasPrefix(who, "a") {
+				vs.Fail("user connection to port 20001 after re-login: served by %q (err %q), expected the client's proxy n", who, e)
+			}
 		}
 		w.Teardown()
 		if d := w.Dump(); d != w.Base {
@@ -263,9 +268,9 @@ func main() {
 	runs := []struct {
 		s string
 		b int
-	}{{"dupname", b}, {"relogin1", b}, {"relogin1-busy", b}, {"relogin2", b}, {"takeover", b}, {"fresh", 1}}
+	}{{"dupname", b}, {"relogin1", b}, {"relogin1-busy", b - 1}, {"relogin2", b - 1}, {"takeover", b}, {"fresh", 1}}
 	for i, r := range runs {
-		c.Explore(r.s, r.b, 1.0/float64(len(runs)-i))
+		c.ExploreBoth(r.s, r.b, 1.0/float64(len(runs)-i))
 	}
 	c.Finish()
 }
